@@ -4,6 +4,7 @@ import ScrapliModel.C05Suite_nxos
 import ScrapliModel.C05Suite_nxosS
 import ScrapliModel.C05Suite_eos
 import ScrapliModel.C05Suite_eosS
+import ScrapliModel.C05Suite_eosP
 import ScrapliModel.C05Suite_junos
 /-
   C05: registry of all suites (used by the model driver Drv/C05.lean and by the summary file).
@@ -13,7 +14,7 @@ import ScrapliModel.C05Suite_junos
 namespace Scrapli.C05
 open Scrapli.Regex Scrapli.PromptClass
 
-def suites : List Suite := [iosxe, iosxr, nxos, nxosS, eos, eosS, junos, junosFull, nxosFull, nxosSFull, eosSFull]
+def suites : List Suite := [iosxe, iosxr, nxos, nxosS, eos, eosS, junos, junosFull, nxosFull, nxosSFull, eosSFull, eosPFull]
 
 def suite (n : String) : Suite := (suites.find? (·.name == n)).getD ⟨"", ⟨"", [], .emp⟩, []⟩
 
